@@ -5,6 +5,7 @@ import (
 	"errors"
 	"fmt"
 	"math"
+	"os"
 	"reflect"
 	"strings"
 	"time"
@@ -299,8 +300,22 @@ var entryPoints = []entryPoint{
 	{"Insert-front-of-full-list", func(v any) slot { return slot{l: at.NewList(0, 1).Concat(at.NewList(2)).Insert(0, v), idx: 0} }},
 	{"Replace", func(v any) slot { return slot{l: at.NewList(0).Replace(0, v)} }},
 	{"list.SetTF-leaf", func(v any) slot { return slot{l: at.NewList().SetTF("#2", v), idx: 2} }},
+	{"list.SetTF-over-object-slot", func(v any) slot {
+		return slot{l: at.NewList(at.NewObject("x", 1), 2).SetTF("#0#1", v).GetList(0), idx: 1}
+	}},
+	{"list.SetTF-over-list-slot", func(v any) slot {
+		return slot{o: at.NewList(0, at.NewList(1, 2)).SetTF("#1.k", v).GetObject(1), key: "k"}
+	}},
+	{"object.SetTF-over-list-slot", func(v any) slot {
+		return slot{o: at.NewObject("a", at.NewList(1)).SetTF(".a.k", v).GetObject("a"), key: "k"}
+	}},
+	{"object.SetTF-over-object-slot", func(v any) slot {
+		return slot{l: at.NewObject("a", at.NewObject("x", 1)).SetTF(".a#0", v).GetList("a"), idx: 0}
+	}},
 	{"list.SetTF-padded-nested", func(v any) slot { return slot{l: at.NewList(1).SetTF("#3#2", v).GetList(3), idx: 2} }},
-	{"list.SetTF-padded-nested-object", func(v any) slot { return slot{o: at.NewList(1, 2).SetTF("#4#1.k", v).GetList(4).GetObject(1), key: "k"} }},
+	{"list.SetTF-padded-nested-object", func(v any) slot {
+		return slot{o: at.NewList(1, 2).SetTF("#4#1.k", v).GetList(4).GetObject(1), key: "k"}
+	}},
 	{"list.SetTF-replace", func(v any) slot { return slot{l: at.NewList(0, 1).SetTF("#1", v), idx: 1} }},
 	{"list.SetTF-nested", func(v any) slot { return slot{o: at.NewList().SetTF("#0.k", v).GetObject(0), key: "k"} }},
 	{"object.SetTF-leaf", func(v any) slot { return slot{o: at.NewObject().SetTF(".k", v), key: "k"} }},
@@ -528,13 +543,16 @@ func kind2container(k spec.Kind) bool { return k == spec.List || k == spec.Obj }
 type c12Struct struct{ A int }
 type c12Int int
 type c12Str string
+type c12U8 uint8
+type c12F32 float32
+type c12Bool bool
 
 func unsupportedValues() []any {
 	x := 5
 	var np *int
 	return []any{uintptr(7), complex128(1 + 2i), complex64(1), []int32{1}, []byte("ab"), []int8{1}, []uint{1}, []float32{1}, map[int]string{1: "a"}, map[string]int64{"a": 1}, map[string]int32{"a": 1},
 		map[string][]any{"a": nil}, map[any]any{}, c12Struct{1}, &c12Struct{1}, &x, np, make(chan int), func() {}, json.Number("1"), c12Int(3), c12Str("s"), [3]int{1, 2, 3}, errors.New("e"),
-		time.Duration(5), time.Unix(0, 0), []any{1, uintptr(2)}, map[string]any{"a": []any{complex(1, 1)}}, []any{[]any{[]int16{1}}}, []map[string]any{{}}, [][]any{{}}, []*int{}}
+		time.Duration(5), time.Unix(0, 0), at.TypeInt, at.TypeUndefined, time.March, os.FileMode(0o644), reflect.Int, c12U8(3), c12F32(1.5), c12Bool(true), []at.Type{at.TypeInt}, map[string]at.Type{"t": at.TypeNil}, []any{1, uintptr(2)}, map[string]any{"a": []any{complex(1, 1)}}, []any{[]any{[]int16{1}}}, []map[string]any{{}}, [][]any{{}}, []*int{}}
 }
 
 func runC12(c *fw.Ctx) {
